@@ -264,6 +264,23 @@ def run_case(ctx, i, rng):
       ctx.check(set(u_l) == set(u_p) and shapes(u_l) == shapes(u_p), 'updates:structure', lambda: dict(case=desc))
       cnt_ok = all(np.array_equal(np.asarray(a), np.asarray(b)) for a, b in zip(jax.tree_util.tree_leaves(u_l), jax.tree_util.tree_leaves(u_p)) if np.asarray(a).dtype == np.int32)
       ctx.check(cnt_ok, 'updates:counters_differ', lambda: dict(case=desc))
+    # the lifted program is a JAX function like the plain one: same results under an enclosing jax.jit, same parameter
+    # gradients under an enclosing jax.grad (while_loop is not reverse-differentiable; rng-dependent programs excluded)
+    if rng_same and i % 3 == 0 and 'params' in V and kind != 'while_loop':
+      def f_l(params, xx):
+        return jnp.sum(lifted.apply(dict(V, params=params), xx, rngs=rngs, mutable=False) ** 2)
+      def f_p(params, xx):
+        return jnp.sum(plain.apply(dict(Vp, params=params), xx, rngs=rngs, mutable=False) ** 2)
+      try:
+        vj_l, vj_p = jax.jit(f_l)(V['params'], x), jax.jit(f_p)(Vp['params'], x)
+        ctx.check(close(vj_l, vj_p), 'apply:differs_under_outer_jit', lambda: dict(case=desc))
+        if kind != 'while_loop':
+          g_l, g_p = jax.grad(f_l)(V['params'], x), jax.grad(f_p)(Vp['params'], x)
+          if name_mode == 'auto':
+            g_l = {(cls_name + '_0' if k == AUTO_PREFIX[kind] + cls_name + '_0' else k): v for k, v in g_l.items()}
+          ctx.check(close(g_l, g_p), 'apply:parameter_gradients_differ_under_outer_grad', lambda: dict(case=desc))
+      except Exception as e:  # noqa: BLE001
+        ctx.check(False, 'apply:outer_transformation_raised', dict(case=desc, error=repr(e)[:300]))
     # untouched collections: nothing outside `mutable` is returned, inputs stay as they were (C01 covers snapshots in general)
     ctx.check(all(np.array_equal(np.asarray(a), np.asarray(b)) for a, b in zip(jax.tree_util.tree_leaves(V), jax.tree_util.tree_leaves(
         unfreeze(vp) if name_mode == 'explicit' else rename(unfreeze(vp), cls_name + '_0', AUTO_PREFIX[kind] + cls_name + '_0')))), 'apply:input_variables_changed', None)
